@@ -7,6 +7,7 @@ package main
 
 import (
 	"bufio"
+	"bytes"
 	"encoding/json"
 	"fmt"
 	"io/ioutil"
@@ -42,6 +43,10 @@ type mGot struct {
 	UDPLen  int   `json:"udplen"`
 	Payload []int `json:"payload"`
 	Pkts    int   `json:"pkts"` // packets seen for this case (duplicates)
+	// what the mirror target's own UDP socket received for this case (a datagram the kernel accepts: checksum, lengths)
+	UDPGot  bool  `json:"udp_got"`
+	UDPSrc  []int `json:"udp_src,omitempty"`
+	UDPSame bool  `json:"udp_same"`
 }
 
 func mInts(b []byte) []int {
@@ -288,6 +293,21 @@ func TestVerifMirror(t *testing.T) {
 		}
 		tv := syscall.Timeval{Sec: 0, Usec: 200000}
 		syscall.SetsockoptTimeval(fd, syscall.SOL_SOCKET, syscall.SO_RCVTIMEO, &tv)
+		// the third-party collector's own socket: the same datagrams, in the same order
+		type udpIn struct {
+			src  net.IP
+			data []byte
+		}
+		var ins []udpIn
+		ub := make([]byte, 1<<16)
+		for len(ins) < hi-lo {
+			pc.SetReadDeadline(time.Now().Add(150 * time.Millisecond))
+			n, from, err := pc.ReadFrom(ub)
+			if err != nil {
+				break
+			}
+			ins = append(ins, udpIn{from.(*net.UDPAddr).IP.To4(), append([]byte{}, ub[:n]...)})
+		}
 		for k, c := range cases[lo:hi] {
 			g := mGot{N: c.N, Form: c.Form, Missing: true}
 			if k < len(got) {
@@ -296,6 +316,10 @@ func TestVerifMirror(t *testing.T) {
 				if k == hi-lo-1 {
 					g.Pkts += extra
 				}
+			}
+			if k < len(ins) {
+				g.UDPGot, g.UDPSrc = true, mInts(ins[k].src)
+				g.UDPSame = bytes.Equal(ins[k].data, mBytes(c.Payload))
 			}
 			enc.Encode(g)
 		}
